@@ -819,5 +819,98 @@ Proof.
   - rewrite Fc, (Fo i) by lia. unfold accum_val. rewrite Ci, Cj. cbn. f_equal; lia.
 Qed.
 
+(* TTB *)
+Theorem cursive_single_ttb :
+  (forall k, xa (getp ps k) = 0) ->
+  position_finish_offsets TTB true (cursive_connect TTB flag ps i j ex en) = Some F ->
+  anchor_abs F j en = anchor_abs F i ex.
+Proof.
+  intros axis Hrun.
+  destruct (connect_ttb flag ps i j ex en Hij fresh) as [Ci Cj]. cbn zeta in Ci, Cj.
+  pose proof (connect_other flag ps i j ex en Hij fresh TTB) as Co.
+  pose proof (connect_length flag ps i j ex en Hij fresh TTB) as Cl.
+  set (ps0 := cursive_connect TTB flag ps i j ex en) in *.
+  assert (Hz : forall k, k <> (if flag then i else j) -> chain (getp ps0 k) = 0).
+  { intros k Hk. destruct (Nat.eq_dec k i) as [->|Hki]; [rewrite Ci; destruct flag; [congruence | reflexivity]|].
+    destruct (Nat.eq_dec k j) as [->|Hkj]; [rewrite Cj; destruct flag; [reflexivity | congruence]|].
+    rewrite Co by assumption. apply fresh. }
+  destruct (finish_one_link TTB ps0 (if flag then i else j) (if flag then j else i) F Hz) as (Fl & Fo & Fc); auto.
+  { destruct flag; [rewrite Ci | rewrite Cj]; cbn; lia. }
+  { unfold parent_index. rewrite Cl. destruct flag; [rewrite Ci | rewrite Cj]; cbn [chain];
+      match goal with |- (if ?c then _ else _) = _ => replace c with false by (symmetry; apply orb_false_iff; split; [apply Z.ltb_ge | apply Z.leb_gt]; lia) end;
+      f_equal; lia. }
+  { destruct flag; lia. }
+  assert (Fxa : forall k, xa (getp F k) = 0).
+  { intro k. destruct (Nat.eq_dec k (if flag then i else j)) as [E|E].
+    - rewrite E, Fc. destruct (accum_val_keeps TTB (atype (getp ps0 (if flag then i else j))) (set_chain (getp ps0 (if flag then i else j)) 0)
+                                  (getp ps0 (if flag then j else i)) (accum_sum TTB ps0 (if flag then i else j) (if flag then j else i))) as (A & _).
+      rewrite A. destruct flag; [rewrite Ci | rewrite Cj]; cbn; apply axis.
+    - rewrite Fo by exact E. destruct (Nat.eq_dec k i) as [->|Hki]; [rewrite Ci; destruct flag; cbn; apply axis|].
+      destruct (Nat.eq_dec k j) as [->|Hkj]; [rewrite Cj; destruct flag; cbn; apply axis|].
+      rewrite Co by assumption. apply axis. }
+  assert (Fbetween : forall k, (i < k < j)%nat -> xa (getp F k) = 0 /\ ya (getp F k) = 0).
+  { intros k Hk. rewrite Fo by (destruct flag; lia). rewrite Co by lia. apply between. exact Hk. }
+  destruct (pen_diff F i j ltac:(lia)) as [_ Py].
+  rewrite (adv_sum_first_only F i j ltac:(lia) Fbetween) in Py. cbn [snd] in Py.
+  unfold anchor_abs, origin. rewrite !pen_fst_zero by exact Fxa. rewrite Py.
+  destruct flag.
+  - rewrite Fc, (Fo j) by lia. unfold accum_val. rewrite Ci, Cj. cbn. f_equal; lia.
+  - rewrite Fc, (Fo i) by lia. unfold accum_val. rewrite Ci, Cj. cbn. f_equal; lia.
+Qed.
+
+Lemma rev_field_zero : forall (fld : pos -> Z) l, fld pos0 = 0 -> (forall k, fld (getp l k) = 0) -> forall k, fld (getp (rev l) k) = 0.
+Proof.
+  intros fld l H0 H k. destruct (Nat.lt_ge_cases k (length l)).
+  - rewrite getp_rev by assumption. apply H.
+  - unfold getp. rewrite nth_overflow by (rewrite rev_length; lia). exact H0.
+Qed.
+
+(* RTL: the buffer is reversed after the finish *)
+Theorem cursive_single_rtl :
+  (forall k, ya (getp ps k) = 0) ->
+  position_finish_offsets RTL true (cursive_connect RTL flag ps i j ex en) = Some F ->
+  anchor_abs (rev F) (length F - 1 - j) en = anchor_abs (rev F) (length F - 1 - i) ex.
+Proof.
+  intros axis Hrun.
+  destruct (connect_rtl flag ps i j ex en Hij fresh) as [Ci Cj]. cbn zeta in Ci, Cj.
+  pose proof (connect_other flag ps i j ex en Hij fresh RTL) as Co.
+  pose proof (connect_length flag ps i j ex en Hij fresh RTL) as Cl.
+  set (ps0 := cursive_connect RTL flag ps i j ex en) in *.
+  assert (Hz : forall k, k <> (if flag then i else j) -> chain (getp ps0 k) = 0).
+  { intros k Hk. destruct (Nat.eq_dec k i) as [->|Hki]; [rewrite Ci; destruct flag; [congruence | reflexivity]|].
+    destruct (Nat.eq_dec k j) as [->|Hkj]; [rewrite Cj; destruct flag; [reflexivity | congruence]|].
+    rewrite Co by assumption. apply fresh. }
+  destruct (finish_one_link RTL ps0 (if flag then i else j) (if flag then j else i) F Hz) as (Fl & Fo & Fc); auto.
+  { destruct flag; [rewrite Ci | rewrite Cj]; cbn; lia. }
+  { unfold parent_index. rewrite Cl. destruct flag; [rewrite Ci | rewrite Cj]; cbn [chain];
+      match goal with |- (if ?c then _ else _) = _ => replace c with false by (symmetry; apply orb_false_iff; split; [apply Z.ltb_ge | apply Z.leb_gt]; lia) end;
+      f_equal; lia. }
+  { destruct flag; lia. }
+  assert (FL : length F = length ps) by (rewrite Fl; exact Cl).
+  assert (Fya : forall k, ya (getp F k) = 0).
+  { intro k. destruct (Nat.eq_dec k (if flag then i else j)) as [E|E].
+    - rewrite E, Fc. destruct (accum_val_keeps RTL (atype (getp ps0 (if flag then i else j))) (set_chain (getp ps0 (if flag then i else j)) 0)
+                                  (getp ps0 (if flag then j else i)) (accum_sum RTL ps0 (if flag then i else j) (if flag then j else i))) as (_ & A & _).
+      rewrite A. destruct flag; [rewrite Ci | rewrite Cj]; cbn; apply axis.
+    - rewrite Fo by exact E. destruct (Nat.eq_dec k i) as [->|Hki]; [rewrite Ci; destruct flag; cbn; apply axis|].
+      destruct (Nat.eq_dec k j) as [->|Hkj]; [rewrite Cj; destruct flag; cbn; apply axis|].
+      rewrite Co by assumption. apply axis. }
+  assert (Fbetween : forall k, (i < k < j)%nat -> xa (getp F k) = 0 /\ ya (getp F k) = 0).
+  { intros k Hk. rewrite Fo by (destruct flag; lia). rewrite Co by lia. apply between. exact Hk. }
+  destruct (pen_diff (rev F) (length F - 1 - j) (length F - 1 - i) ltac:(lia)) as [Px _].
+  replace (length F - 1 - i - (length F - 1 - j))%nat with (j - i)%nat in Px by lia.
+  rewrite adv_sum_rev in Px by lia.
+  replace (length F - (length F - 1 - j) - (j - i))%nat with (S i) in Px by lia.
+  rewrite (adv_sum_last_only F i j ltac:(lia) Fbetween) in Px. cbn [fst] in Px.
+  unfold anchor_abs, origin.
+  rewrite !pen_snd_zero by (apply (rev_field_zero ya); [reflexivity | exact Fya]).
+  rewrite Px. rewrite !getp_rev by lia.
+  replace (length F - 1 - (length F - 1 - i))%nat with i by lia.
+  replace (length F - 1 - (length F - 1 - j))%nat with j by lia.
+  destruct flag.
+  - rewrite Fc, (Fo j) by lia. unfold accum_val. rewrite Ci, Cj. cbn. f_equal; lia.
+  - rewrite Fc, (Fo i) by lia. unfold accum_val. rewrite Ci, Cj. cbn. f_equal; lia.
+Qed.
+
 End OneConnectionFinal.
 
